@@ -6,7 +6,9 @@
  * (lists: one element per path by symx_choice), write_statistics VT_STATS, row_group_size VT_RGSIZE.
  * Symbolic per column (VT_Sc bits): 1 = null pattern (every pattern incl. all-null and no-null), 2 = value bits (extreme
  * integers, NaN payloads, -0.0, infinities included by construction; BYTE_ARRAY: bytes, and the length 0..3 of the first
- * VT_NSYMLEN values); otherwise CONCRETE content rich in special values (4 = all-null column, 8 = no-null column).
+ * VT_NSYMLEN values); otherwise CONCRETE content rich in special values (4 = all-null column, 8 = no-null column).  The
+ * symbolic part can be restricted to the rows [VT_WLO, VT_WHI) (a window placed across a batch / page / row-group boundary of
+ * a longer table; rows outside it are concrete).
  * Read back through every I/O mode in VT_READ (1 buffer, 2 stdio, 4 mmap; carquet_reader_open_file is declared in carquet.h
  * but defined nowhere in the library, so it cannot be exercised) and every way in VT_VIA (1 column reader,
  * one read per chunk; 2 column reader, reads of VT_K rows; 4 batch reader with batch_size VT_K).
@@ -98,6 +100,12 @@
 #ifndef VT_NSYMLEN
 #define VT_NSYMLEN 1
 #endif
+#ifndef VT_WLO
+#define VT_WLO 0             /* symbolic window: rows [VT_WLO, VT_WHI) */
+#endif
+#ifndef VT_WHI
+#define VT_WHI VT_R
+#endif
 #define PATH "/mem/t.parquet"
 #define MAXB 64
 
@@ -129,36 +137,38 @@ static void make_column(int c) {
     int ct = CT[c], sym = CSYM[c];
     S.name[c] = CNAME[c]; S.type[c] = TYPES[ct]; S.rep[c] = CO[c] ? CARQUET_REPETITION_OPTIONAL : CARQUET_REPETITION_REQUIRED; S.type_len[c] = ct == 6 ? CL[c] : 0;
     C[c].nrows = VT_R;
-    if (CO[c] && (sym & 1)) {
-        uint8_t nulls[VT_R ? VT_R : 1]; symx_make_symbolic(nulls, VT_R, NN[c]);
-        for (int i = 0; i < VT_R; i++) { symx_assume(nulls[i] <= 1); C[c].def[i] = nulls[i] ? 0 : 1; }
-    } else {
-        for (int i = 0; i < VT_R; i++) C[c].def[i] = !CO[c] ? 1 : (sym & 4) ? 0 : (sym & 8) ? 1 : DEFPAT[(i + 7 * c) % 24];
-    }
     size_t vs = vsize(c);
-    if (ct == 5) {
-        uint8_t lens[VT_NSYMLEN ? VT_NSYMLEN : 1];
-        if (sym & 2) { symx_make_symbolic(bapool[c], VT_R * 3 ? VT_R * 3 : 1, VN[c]); symx_make_symbolic(lens, VT_NSYMLEN, LN[c]); }
-        for (int i = 0; i < VT_R; i++) {
-            C[c].ba[i].data = bapool[c] + 3 * i;
-            if ((sym & 2) && i < VT_NSYMLEN) { symx_assume(lens[i] <= 3); C[c].ba[i].length = lens[i]; }
-            else C[c].ba[i].length = (i * 5 + 2 + c) % 4;                                   /* 2,3,0,1,... : empty strings included */
-            if (!(sym & 2)) { bapool[c][3 * i] = (uint8_t)('a' + i); bapool[c][3 * i + 1] = 0; bapool[c][3 * i + 2] = (uint8_t)(0xF0 + i); }      /* embedded NUL */
+    /* ---- concrete content first */
+    for (int i = 0; i < VT_R; i++) C[c].def[i] = !CO[c] ? 1 : (sym & 4) ? 0 : (sym & 8) ? 1 : DEFPAT[(i + 7 * c) % 24];
+    for (int i = 0; i < VT_R; i++) {           /* i = dense index of the value */
+        int s = i + 3 * c;
+        switch (ct) {
+            case 0: C[c].vals[i] = (uint8_t)((s * 5 + 1) % 3 == 0); break;
+            case 1: memcpy(C[c].vals + 4 * i, &I32S[s % 8], 4); break;
+            case 2: memcpy(C[c].vals + 8 * i, &I64S[s % 8], 8); break;
+            case 3: memcpy(C[c].vals + 4 * i, &F32S[s % 8], 4); break;
+            case 4: memcpy(C[c].vals + 8 * i, &F64S[s % 8], 8); break;
+            case 5: C[c].ba[i].data = bapool[c] + 3 * i; C[c].ba[i].length = (i * 5 + 2 + c) % 4;       /* 2,3,0,1,...: empty strings included */
+                    bapool[c][3 * i] = (uint8_t)('a' + i); bapool[c][3 * i + 1] = 0; bapool[c][3 * i + 2] = (uint8_t)(0xF0 + i); break;      /* embedded NUL */
+            default: for (size_t j = 0; j < vs; j++) C[c].vals[vs * i + j] = j == 1 ? 0 : (uint8_t)((s * vs + j) * 37 + 1); break;     /* byte 1 is NUL */
         }
-    } else if (sym & 2) {
-        symx_make_symbolic(C[c].vals, VT_R * vs ? VT_R * vs : 1, VN[c]);
-        if (ct == 0) for (int i = 0; i < VT_R; i++) symx_assume(C[c].vals[i] <= 1);
-    } else {
-        for (int i = 0; i < VT_R; i++) {
-            int s = i + 3 * c;
-            switch (ct) {
-                case 0: C[c].vals[i] = (uint8_t)((s * 5 + 1) % 3 == 0); break;
-                case 1: memcpy(C[c].vals + 4 * i, &I32S[s % 8], 4); break;
-                case 2: memcpy(C[c].vals + 8 * i, &I64S[s % 8], 8); break;
-                case 3: memcpy(C[c].vals + 4 * i, &F32S[s % 8], 4); break;
-                case 4: memcpy(C[c].vals + 8 * i, &F64S[s % 8], 8); break;
-                default: for (size_t j = 0; j < vs; j++) C[c].vals[vs * i + j] = j == 1 ? 0 : (uint8_t)((s * vs + j) * 37 + 1); break;     /* byte 1 is NUL */
-            }
+    }
+    /* ---- symbolic window: rows [VT_WLO, VT_WHI) get a symbolic null pattern (bit 1); the dense value slots that belong to the
+       window under the concrete pattern before it get symbolic bits (bit 2) */
+    int wlo = VT_WLO, whi = VT_WHI < VT_R ? VT_WHI : VT_R, w = whi > wlo ? whi - wlo : 0;
+    int a = pq_present(&S, &C[c], c, 0, wlo);
+    if (CO[c] && (sym & 1) && w) {
+        uint8_t nulls[VT_R ? VT_R : 1]; symx_make_symbolic(nulls, (size_t)w, NN[c]);
+        for (int i = 0; i < w; i++) { symx_assume(nulls[i] <= 1); C[c].def[wlo + i] = nulls[i] ? 0 : 1; }
+    }
+    if ((sym & 2) && w) {
+        if (ct == 5) {
+            uint8_t lens[VT_NSYMLEN ? VT_NSYMLEN : 1];
+            symx_make_symbolic(bapool[c] + 3 * a, (size_t)w * 3, VN[c]); symx_make_symbolic(lens, VT_NSYMLEN, LN[c]);
+            for (int i = 0; i < w && i < VT_NSYMLEN; i++) { symx_assume(lens[i] <= 3); C[c].ba[a + i].length = lens[i]; }
+        } else {
+            symx_make_symbolic(C[c].vals + (size_t)a * vs, (size_t)w * vs, VN[c]);
+            if (ct == 0) for (int i = 0; i < w; i++) symx_assume(C[c].vals[a + i] <= 1);
         }
     }
 }
